@@ -32,23 +32,21 @@ LEVEL = "proof"
 THEOREMS = {
     "MG.Proofs.C16": [
         "MG.C16.swv_accepts_iff",
+        "MG.C16.swvSeq_accepts_iff",
+        "MG.C16.swvSeq_rejects_length_mismatch",
         "MG.C16.swv_shape",
         "MG.C16.swv_offset",
-        "MG.C16.swv_element_neg",
-        "MG.C16.swv_element_partial",
-        "MG.C16.swv_in_bounds_neg",
-        "MG.C16.swv_in_bounds_partial",
+        "MG.C16.swv_element",
+        "MG.C16.swv_in_bounds",
         "MG.C16.conv_accepts_iff",
         "MG.C16.conv_rejects_valid_neg",
         "MG.C16.conv_accepts_iff_tiles_partial",
         "MG.C16.dil_fits_of_dilation_one",
-        "MG.C16.conv_impl_eq_naive_neg",
         "MG.C16.conv_get_impl_eq_naive",
-        "MG.C16.conv_impl_eq_naive_partial",
+        "MG.C16.conv_impl_eq_naive",
         "MG.C16.pool_accepts_iff",
-        "MG.C16.pool_impl_eq_naive_neg",
         "MG.C16.pool_get_impl_eq_naive",
-        "MG.C16.pool_impl_eq_naive_partial",
+        "MG.C16.pool_impl_eq_naive",
         "MG.C16.softmax_shift",
         "MG.C16.logsoftmax_shift",
         "MG.C16.softmax_sum_one",
@@ -68,6 +66,7 @@ def make_array(shape, layout, values):
     """An ndarray of `shape` holding `values` (row-major), living inside a larger sentinel-filled buffer.
 
     layouts: C  ordinary C-contiguous            T  transposed (non-contiguous when it matters)
+             B  np.broadcast_to along the last axis (stride 0, read-only, non-contiguous)
              S  every second element of a wider buffer (non-contiguous)
              N0 `a[..., None]`   : last axis of size 1 with stride 0      (NumPy sets the C-contiguous flag)
              NT `a.swapaxes(-1,-2)` of a (…,1,m) array: last stride = m items (C-contiguous flag set)
@@ -102,15 +101,22 @@ def make_array(shape, layout, values):
         assert len(shape) >= 2 and shape[-1] == 1
         core[:] = vals
         return core.reshape(shape[:-2] + (1, shape[-2])).swapaxes(-1, -2), big
+    if layout == "B":  # broadcast view: the last axis repeats one stored element (stride 0, read-only)
+        assert shape[-1] > 1
+        m = n // shape[-1]
+        core[:m] = vals.reshape(shape)[..., 0].reshape(-1)
+        return np.broadcast_to(core[:m].reshape(shape[:-1] + (1,)), shape), big
     raise ValueError(layout)
 
 
-def layouts_for(shape):
+def layouts_for(shape, allow_b=True):
     ls = ["C"]
     if len(shape) >= 2:
         ls.append("T")
     if len(shape) >= 1 and shape[-1] > 1:
         ls.append("S")
+        if allow_b:
+            ls.append("B")
     if len(shape) >= 1 and shape[-1] == 1:
         ls.append("N0")
         if len(shape) >= 2 and shape[-2] > 1:
@@ -145,13 +151,6 @@ def sig_feats(f):
         # the structural features only say how the >= 2 elements needed to see the defect were obtained
         f = [x for x in f if x not in ("k>1", "batch", "batch/channels>1")]
     return f
-
-
-def nb_of(a):
-    """stride unit the code will use (`arr.strides[-1]` of the array reaching l.204), in items"""
-    if a.ndim == 0 or not a.flags["C_CONTIGUOUS"]:
-        return 1
-    return a.strides[-1] // a.itemsize
 
 
 def extent(a):
@@ -268,7 +267,8 @@ def swv_run(cfg):
     dil = [a[3] for a in ax]
     dform = cfg.get("dform", "tuple")
     dilation = None if (dform == "none" and all(d == 1 for d in dil)) else form(dil, "int" if dform == "none" else dform)
-    obs = {"nb": nb_of(arr), "data": vals}
+    vals = [int(v) for v in np.array(arr).reshape(-1)]  # logical content (differs from `vals` for layout B)
+    obs = {"data": vals}
     fails = []
     valid = swv_valid(cfg)
     try:
@@ -322,7 +322,7 @@ def swv_run(cfg):
 
 def swv_line(cfg, obs):
     ax = ";".join(":".join(str(int(v)) for v in a) for a in cfg["axes"]) or "-"
-    return f"nnet swv {csv(cfg['batch'])} {ax} {obs['nb']} {csv(obs['data'])}"
+    return f"nnet swv {csv(cfg['batch'])} {ax} {csv(obs['data'])}"
 
 
 def swv_diff(obs, m):
@@ -447,11 +447,12 @@ def conv_run(cfg, kind="int"):
     warr = np.array(wv, dtype=np.float64).reshape(ws)
     ax = cfg["axes"]
     S, P, D = [a[2] for a in ax], [a[3] for a in ax], [a[4] for a in ax]
-    obs = {"nb": nb_of(xarr), "xdata": xv, "wdata": wv}
+    xlog = np.array(xarr, dtype=np.float64)  # logical content (differs from `xv` for layout B)
+    xv = [int(v) for v in xlog.reshape(-1)] if kind == "int" else list(xlog.reshape(-1))
+    obs = {"xdata": xv, "wdata": wv}
     fails = []
     valid = conv_valid(cfg)
     xt, wt = mg.astensor(xarr), mg.astensor(warr)
-    obs["nb"] = nb_of(xt.data)
     try:
         out = conv_nd(xt, wt, stride=form(S, cfg.get("sform", "tuple")), padding=form(P, cfg.get("pform", "tuple")),
                       dilation=form(D, cfg.get("dform", "tuple")))
@@ -498,7 +499,7 @@ def conv_run(cfg, kind="int"):
 
 def conv_line(cfg, obs):
     ax = ";".join(":".join(str(int(v)) for v in a) for a in cfg["axes"]) or "-"
-    return (f"nnet conv {cfg['n']} {cfg['c']} {cfg['cw']} {cfg['f']} {ax} {obs['nb']} "
+    return (f"nnet conv {cfg['n']} {cfg['c']} {cfg['cw']} {cfg['f']} {ax} "
             f"{csv(obs['xdata'])} {csv(obs['wdata'])}")
 
 
@@ -557,11 +558,10 @@ def pool_run(cfg, kind="int"):
     shape, vals = pool_data(cfg, kind)
     arr, keep = make_array(shape, cfg.get("layout", "C"), vals)
     ax = cfg["axes"]
-    obs = {"nb": nb_of(arr), "data": vals}
+    obs = {"data": vals}
     fails = []
     valid = pool_valid(cfg)
     xt = mg.astensor(arr)
-    obs["nb"] = nb_of(xt.data)
     pool = form([a[1] for a in ax], cfg.get("wform", "tuple"))
     if isinstance(pool, int):
         pool = (pool,)
@@ -616,10 +616,98 @@ def pool_run(cfg, kind="int"):
 
 def pool_line(cfg, obs):
     ax = ";".join(":".join(str(int(v)) for v in a) for a in cfg["axes"]) or "-"
-    return f"nnet pool {csv(cfg['batch'])} {ax} {obs['nb']} {csv(obs['data'])}"
+    return f"nnet pool {csv(cfg['batch'])} {ax} {csv(obs['data'])}"
 
 
-RUN1 = {"swv": swv_run, "conv": conv_run, "pool": pool_run}
+# ---------------------------------------------------------------------- argument sequences of any length
+
+
+def seq_features(cfg):
+    k = len(cfg["window"])
+    f = []
+    if k == 0:
+        f.append("empty-window")
+    if k > len(cfg["shape"]):
+        f.append("len(window_shape)>ndim")
+    if not isinstance(cfg["step"], int) and len(cfg["step"]) != k:
+        f.append("len(step)>len(window_shape)" if len(cfg["step"]) > k else "len(step)<len(window_shape)")
+    if cfg["dil"] is not None and not isinstance(cfg["dil"], int) and len(cfg["dil"]) != k:
+        f.append("len(dilation)!=len(window_shape)")
+    return f
+
+
+def seq_expand(cfg):
+    k = len(cfg["window"])
+    step = [cfg["step"]] * k if isinstance(cfg["step"], int) else list(cfg["step"])
+    dil = None if cfg["dil"] is None else ([cfg["dil"]] * k if isinstance(cfg["dil"], int) else list(cfg["dil"]))
+    return step, dil
+
+
+def seq_run(cfg, kind="int"):
+    """sliding_window_view on raw argument sequences (lengths need not agree)"""
+    shape, window = list(cfg["shape"]), list(cfg["window"])
+    step, dil = seq_expand(cfg)
+    k = len(window)
+    aligned = 1 <= k <= len(shape) and len(step) == k and (dil is None or len(dil) == k)
+    if aligned:  # an ordinary per-axis configuration: the full oracle applies
+        d = dil if dil is not None else [1] * k
+        sub = {"batch": shape[:len(shape) - k], "axes": [[x, w, s_, d_] for x, w, s_, d_ in zip(shape[len(shape) - k:], window, step, d)],
+               "layout": "C", "sform": "int" if isinstance(cfg["step"], int) else "tuple",
+               "dform": "none" if cfg["dil"] is None else ("int" if isinstance(cfg["dil"], int) else "tuple")}
+        return swv_run(sub)
+    n = int(np.prod(shape)) if shape else 1
+    vals = list(range(1, n + 1))
+    arr, keep = make_array(shape, "C", vals)
+    obs = {"data": vals}
+    fails = []
+    try:
+        out = sliding_window_view(arr, window_shape=tuple(window), step=cfg["step"] if isinstance(cfg["step"], int) else tuple(cfg["step"]),
+                                  dilation=cfg["dil"] if (cfg["dil"] is None or isinstance(cfg["dil"], int)) else tuple(cfg["dil"]))
+    except Exception as e:
+        obs["err"] = exc_name(e)
+        return obs, fails
+    obs["shape"] = list(out.shape)
+    obs["wr"] = int(out.flags.writeable)
+    obs["strides"] = [st // arr.itemsize if st % arr.itemsize == 0 else None for st in out.strides]
+    eo, ea = extent(out), extent(arr)
+    if eo is not None and not (ea[0] <= eo[0] and eo[1] <= ea[1]):
+        fails.append(("out-of-bounds", f"accepted (shape {tuple(out.shape)}); view bytes [{eo[0] - ea[0]}, {eo[1] - ea[0]}) vs arr bytes [0, {ea[1] - ea[0]})"))
+    else:
+        fails.append(("invalid-config-accepted", f"returned shape {tuple(out.shape)}"))
+        got = np.array(out)
+        obs["vals"] = [int(v) for v in got.reshape(-1)]
+    return obs, fails
+
+
+def seq_line(cfg, obs):
+    step, dil = seq_expand(cfg)
+    return (f"nnet swvseq {csv(cfg['shape'])} {csv(cfg['window'])} {csv(step)} "
+            f"{'none' if dil is None else csv(dil)} {csv(obs['data'])}")
+
+
+def gen_seq(rng):
+    nd = rng.choice([1, 1, 2, 3])
+    shape = [rng.randint(2, 5) for _ in range(nd)]
+    window = [rng.choice([1, 2]) for _ in range(rng.choice([0, 1, 1, 2, 2, 3]))]
+    step = rng.choice([1, 2]) if rng.random() < 0.2 else [rng.choice([1, 2]) for _ in range(rng.choice([0, 1, 2, 2, 3, 4]))]
+    r = rng.random()
+    dil = None if r < 0.4 else (rng.choice([1, 2]) if r < 0.5 else [rng.choice([1, 2]) for _ in range(rng.choice([0, 1, 2, 3]))])
+    return {"shape": shape, "window": window, "step": step, "dil": dil}
+
+
+def enum_seq():
+    def seqs(maxlen):
+        for n in range(maxlen + 1):
+            yield from (list(t) for t in itertools.product([1, 2], repeat=n))
+
+    for shape in ([5], [4, 5], [2, 3, 4]):
+        for window in seqs(3):
+            for step in [1, 2] + list(seqs(4)):
+                for dil in [None] + list(seqs(3)):
+                    yield {"shape": shape, "window": window, "step": step, "dil": dil}
+
+
+RUN1 = {"swv": swv_run, "conv": conv_run, "pool": pool_run, "seq": seq_run}
 
 
 def run_both(kind, cfg):
@@ -641,10 +729,10 @@ SEVERITY = ["valid-config-rejected", "invalid-config-accepted", "writeable", "sh
 
 
 RUN = {k: (lambda cfg, k=k: run_both(k, cfg)) for k in RUN1}
-LINE = {"swv": swv_line, "conv": conv_line, "pool": pool_line}
-DIFF = {"swv": swv_diff, "conv": op_diff, "pool": op_diff}
-FEATS = {"swv": swv_features, "conv": conv_features, "pool": pool_features}
-FUNC = {"swv": "sliding_window_view", "conv": "conv_nd", "pool": "max_pool"}
+LINE = {"swv": swv_line, "conv": conv_line, "pool": pool_line, "seq": seq_line}
+DIFF = {"swv": swv_diff, "conv": op_diff, "pool": op_diff, "seq": swv_diff}
+FEATS = {"swv": swv_features, "conv": conv_features, "pool": pool_features, "seq": seq_features}
+FUNC = {"swv": "sliding_window_view", "conv": "conv_nd", "pool": "max_pool", "seq": "sliding_window_view"}
 
 
 # ====================================================================== shrinking, signatures
@@ -657,6 +745,8 @@ def candidates(kind, cfg):
         c.update(kw)
         return c
 
+    if kind == "seq":
+        return
     if cfg.get("layout", "C") != "C":
         yield mk(layout="C")
     for key in ("wform", "sform", "dform", "pform"):
@@ -722,6 +812,8 @@ def shrink(kind, cfg, cls):
 
 
 def cfg_shape(kind, cfg):
+    if kind == "seq":
+        return list(cfg["shape"])
     if kind == "conv":
         return [cfg["n"], cfg["c"]] + [a[0] for a in cfg["axes"]]
     return list(cfg["batch"]) + [a[0] for a in cfg["axes"]]
@@ -738,6 +830,8 @@ def violation_for(kind, cfg, cls, detail):
 
 
 def describe(kind, cfg):
+    if kind == "seq":
+        return f"arr.shape={tuple(cfg['shape'])} window_shape={cfg['window']} step={cfg['step']} dilation={cfg['dil']}"
     ax = cfg["axes"]
     if kind == "swv":
         return (f"arr.shape={tuple(cfg_shape(kind, cfg))} layout={cfg.get('layout', 'C')} window={[a[1] for a in ax]} "
@@ -829,7 +923,7 @@ def gen_pool(rng):
            "seed": rng.randrange(10 ** 6)}
     if rng.random() < 0.2:
         axes[-1][0] = 1
-    ls = layouts_for(cfg_shape("pool", cfg))
+    ls = layouts_for(cfg_shape("pool", cfg), allow_b=False)  # repeated values would make the arg-max ambiguous
     cfg["layout"] = rng.choice(ls) if rng.random() < 0.4 else "C"
     return cfg
 
@@ -1159,14 +1253,23 @@ def probe_malformed(rng):
     return fails
 
 
-# the witnesses of the `_neg` theorems (MG/Proofs/C16.lean), as configurations of the implementation
+# the witness of the `_neg` theorem (MG/Proofs/C16.lean), as a configuration of the implementation
 NEG_WITNESSES = [
     ("conv_rejects_valid_neg", "conv", {"n": 1, "c": 1, "cw": 1, "f": 1, "axes": [[5, 3, 1, 0, 2]], "layout": "C"}),
-    ("swv_element_neg", "swv", {"batch": [3], "axes": [[1, 1, 1, 1]], "layout": "N0"}),
-    ("swv_in_bounds_neg", "swv", {"batch": [], "axes": [[3, 2, 1, 1], [1, 1, 1, 1]], "layout": "NT"}),
-    ("conv_impl_eq_naive_neg", "conv", {"n": 1, "c": 1, "cw": 1, "f": 1, "axes": [[2, 2, 1, 0, 1], [1, 1, 1, 0, 1]], "layout": "N0",
-                                        "xdata": [1, 2], "wdata": [1, 1]}),
-    ("pool_impl_eq_naive_neg", "pool", {"batch": [], "axes": [[3, 2, 1], [1, 1, 1]], "layout": "N0", "data": [1, 2, 3]}),
+]
+
+# regression probes: the inputs on which F15 / F16 (repaired in /repo e458ff4) showed; ordinary oracle cases now
+REGRESSION_CASES = [
+    ("swv", {"batch": [3], "axes": [[1, 1, 1, 1]], "layout": "N0"}),                       # a[:, None]
+    ("swv", {"batch": [], "axes": [[3, 2, 1, 1], [1, 1, 1, 1]], "layout": "NT"}),          # row.T
+    ("swv", {"batch": [3], "axes": [[4, 2, 1, 2]], "layout": "B"}),                        # broadcast view
+    ("conv", {"n": 1, "c": 1, "cw": 1, "f": 1, "axes": [[2, 2, 1, 0, 1], [1, 1, 1, 0, 1]], "layout": "N0",
+              "xdata": [1, 2], "wdata": [1, 1]}),
+    ("conv", {"n": 1, "c": 2, "cw": 2, "f": 1, "axes": [[3, 2, 1, 0, 1], [1, 1, 1, 0, 1]], "layout": "NT"}),
+    ("pool", {"batch": [], "axes": [[3, 2, 1], [1, 1, 1]], "layout": "N0", "data": [1, 2, 3]}),
+    ("pool", {"batch": [2], "axes": [[3, 2, 1], [1, 1, 1]], "layout": "NT"}),
+    ("seq", {"shape": [5], "window": [2], "step": [1, 2], "dil": None}),                   # over-long step
+    ("seq", {"shape": [5], "window": [2], "step": [1, 2, 1], "dil": [1]}),
 ]
 
 
@@ -1210,7 +1313,14 @@ def run(ctx: Ctx) -> Outcome:
         items.append(("conv", gen_conv(rng)))
     for _ in range(ctx.n(4000, 50000)):
         items.append(("pool", gen_pool(rng)))
-    # ---- witnesses of the _neg theorems
+    if big:
+        items += [("seq", c) for c in enum_seq()]
+    else:
+        for _ in range(2500):
+            items.append(("seq", gen_seq(rng)))
+    for kind, cfg in REGRESSION_CASES:
+        items.append((kind, dict(cfg)))
+    # ---- witnesses of the _neg theorems (last)
     for name, kind, cfg in NEG_WITNESSES:
         items.append((kind, dict(cfg)))
 
@@ -1230,15 +1340,19 @@ def run(ctx: Ctx) -> Outcome:
             idx.append(i)
     model = [o for ch in pmap(task, [("drv", lines[i:i + 1500]) for i in range(0, len(lines), 1500)]) for o in ch]
 
-    hist = {"swv": {}, "conv": {}, "pool": {}}
+    hist = {"swv": {}, "conv": {}, "pool": {}, "seq": {}}
     seen_viol = {}
     n_corr = 0
     for j, i in enumerate(idx):
         kind, cfg, obs, fails, line = results[i]
         m = parse_obs(model[j])
         out.traces_validated += 1
+        if kind == "seq" and not cfg["window"] and "err" in obs and "err" in m:
+            # no windowed axis: rejected by whatever NumPy broadcasting/casting error comes first (ValueError, or a
+            # casting TypeError when dilation=() is spelled out); only the rejection itself is behaviour
+            obs = dict(obs, err=m["err"])
         d = DIFF[kind](obs, m)
-        if kind in ("conv", "pool") and m.get("naive") == "0" and m.get("oob") == "0" and nb_eff(kind, cfg, obs) == 1:
+        if kind in ("conv", "pool") and m.get("naive") == "0":
             d = dict(d or {}, model_naive="model's window evaluation differs from its own naive evaluation")
         if d:
             n_corr += 1
@@ -1254,6 +1368,12 @@ def run(ctx: Ctx) -> Outcome:
         lay = cfg.get("layout", "C")
         hist[kind]["layout:" + lay] = hist[kind].get("layout:" + lay, 0) + 1
         feats = FEATS[kind](cfg)
+        if kind == "seq":
+            if feats:
+                out.nontrivial.add(stable_hash(["seq", cfg]))
+            for cls, detail in fails:
+                seen_viol.setdefault((kind, cls, tuple(feats)), (cfg, detail))
+            continue
         if acc and feats:
             out.nontrivial.add(stable_hash([kind, cfg.get("batch"), cfg.get("n"), cfg.get("c"), cfg.get("f"), cfg["axes"], lay]))
         if (acc and len(cfg["axes"]) == 2 and len(feats) >= 3 and all(a[0] >= 4 for a in cfg["axes"])
@@ -1295,19 +1415,14 @@ def run(ctx: Ctx) -> Outcome:
     out.stats["float_layers"] = lhist
     out.samples.append({"float_case": fres[0]["info"]})
     out.assumptions = [
-        "window_shape/step/dilation/padding sequences of unequal length are outside the Lean model (direct oracle only)",
+        "stride/padding/dilation sequences of conv_nd and pool/stride of max_pool of unequal length are outside the Lean model "
+        "(direct oracle: must be rejected); for sliding_window_view they are modelled (swvSeq)",
         "axis sizes < 2**53 (conv_nd/max_pool test divisibility in float64)",
         "float layers (batchnorm, gru, softmax, logsoftmax, losses) are compared numerically at 1e-10 relative; only the "
         "algebraic shift identity of softmax/logsoftmax is proved",
         "np.pad, np.tensordot, ndarray.max and as_strided are NumPy's; the model reproduces their index semantics",
     ]
     return out
-
-
-def nb_eff(kind, cfg, obs):
-    if kind == "conv" and any(a[3] != 0 for a in cfg["axes"]):
-        return 1
-    return obs.get("nb", 1)
 
 
 def replay(data) -> bool:
@@ -1321,7 +1436,7 @@ def replay(data) -> bool:
             cfg = b.get("detail", {}).get("cfg")
             if cfg is None:
                 continue
-            kind = "conv" if "n" in cfg else ("swv" if cfg["axes"] and len(cfg["axes"][0]) == 4 else "pool")
+            kind = "seq" if "window" in cfg else "conv" if "n" in cfg else ("swv" if cfg["axes"] and len(cfg["axes"][0]) == 4 else "pool")
             obs, fails = RUN[kind](cfg)
             m = parse_obs(run_driver([LINE[kind](cfg, obs)])[0])
             d = DIFF[kind](obs, m)
@@ -1345,10 +1460,20 @@ def replay(data) -> bool:
     obs, fails = RUN[kind](cfg)
     print("call:    ", FUNC[kind], describe(kind, cfg))
     print("observed:", {k: v for k, v in obs.items() if k not in ("data", "xdata", "wdata")})
-    print("expected:", "accepted, equal to the documented formula" if {"swv": swv_valid, "conv": conv_valid, "pool": pool_valid}[kind](cfg)
-          else "rejected with an error")
+    valid = {"swv": swv_valid, "conv": conv_valid, "pool": pool_valid, "seq": lambda c: not seq_features(c)}[kind](cfg)
+    print("expected:", "accepted (if the per-axis rule holds), equal to the documented formula, inside arr" if valid else "rejected with an error")
     print("failures:", fails)
     return any(c == r["class"] for c, _ in fails) or bool(fails)
+
+
+def check_witness(w):
+    """re-establish an open known finding on the current tree (harness/main.py calls this every run)"""
+    kind, cfg = w["kind"], w["cfg"]
+    _, fails = RUN[kind](cfg)
+    for cls, detail in fails:
+        if cls == w.get("class", cls):
+            return violation_for(kind, cfg, cls, detail)
+    return None
 
 
 MANIFEST = {
@@ -1360,21 +1485,21 @@ MANIFEST = {
                  "tolerance comparison for the float layers",
     "text": "Proved for every number of axes and all sizes/steps/dilations/paddings (unbounded integers) and every memory "
             "content: sliding_window_view accepts iff window, step, dilation are positive and window*dilation <= axis on each "
-            "windowed axis (swv_accepts_iff); the view has shape (placements.., batch.., window..) with the greedy placement "
-            "count and is read-only (swv_shape); view index (g,n,k) addresses nb * offset of arr[n, g*s+k*d] (swv_offset), hence "
-            "for ordinary arrays (nb=1) the right element (swv_element_partial) inside arr (swv_in_bounds_partial: memory safety "
-            "of as_strided); conv_nd accepts iff the placements tile the padded data AND w*d <= x+2p (conv_accepts_iff), max_pool "
-            "iff they tile (pool_accepts_iff); window-view + tensordot/moveaxis resp. max/transpose equals the naive formula "
-            "(conv_impl_eq_naive_partial, pool_impl_eq_naive_partial). Three full statements are FALSE of the unchanged code and "
-            "are proved so from witnesses that the check replays on the implementation: conv_rejects_valid_neg (x=5,w=3,d=2), "
-            "swv_element_neg / swv_in_bounds_neg / conv_impl_eq_naive_neg / pool_impl_eq_naive_neg (arrays NumPy flags "
-            "C-contiguous whose last stride is not the item size, e.g. a[:, None] or row.T). softmax_shift / logsoftmax_shift "
-            "(stabilised = documented formula) are proved over the reals.",
+            "windowed axis (swv_accepts_iff), and on raw argument sequences iff additionally step/dilation have the length of "
+            "window_shape <= ndim (swvSeq_accepts_iff, swvSeq_rejects_length_mismatch); the view has shape (placements.., "
+            "batch.., window..) with the greedy placement count and is read-only (swv_shape); view index (g,n,k) addresses "
+            "arr[n, g*s+k*d] (swv_offset, swv_element) inside arr (swv_in_bounds: memory safety of as_strided); conv_nd accepts "
+            "iff the placements tile the padded data AND w*d <= x+2p (conv_accepts_iff), max_pool iff they tile "
+            "(pool_accepts_iff); window-view + tensordot/moveaxis resp. max/transpose equals the naive formula for all "
+            "configurations and data (conv_impl_eq_naive, pool_impl_eq_naive). One full statement is FALSE of the code and is "
+            "proved so from a witness that the check replays on the implementation: conv_rejects_valid_neg (x=5,w=3,d=2; known "
+            "finding F10), with conv_accepts_iff_tiles_partial under H_dil_fits. softmax_shift / logsoftmax_shift (stabilised = "
+            "documented formula) are proved over the reals.",
     "note": "NOT reached by proof, compared numerically at 1e-10 relative on random inputs only: batchnorm, gru (numba kernels), "
             "softmax/logsoftmax in floating point, softmax_crossentropy, multiclass_hinge, margin_ranking_loss, focal_loss, "
             "softmax_focal_loss, negative_log_likelihood, and the backward passes of conv_nd/max_pool (exact on integer data). "
             "The model is hand-written; its tie to /repo is the correspondence (exhaustive for 1 windowed axis in quick, for <=2 "
-            "axes of sliding_window_view in thorough, sizes<=7, window<=4, step<=3, dilation<=3). Argument sequences of unequal "
-            "length are outside the model. Trusted: Lean kernel, axioms {propext, Classical.choice, Quot.sound}, NumPy's "
+            "axes of sliding_window_view in thorough, sizes<=7, window<=4, step<=3, dilation<=3; inputs with non-canonical strides — "
+            "a[:,None], row.T, broadcast and transposed views — are part of every run since F15). Trusted: Lean kernel, axioms {propext, Classical.choice, Quot.sound}, NumPy's "
             "as_strided/pad/tensordot/max index semantics, the harness.",
 }
